@@ -141,11 +141,16 @@ def optStrHash : Option String → HIn
   | Option.none => .none
   | some s => .str s
 
+/-- `x or None` -/
+def orNone (o : Option String) : Option String := if Dep.truthy o then o else Option.none
+
 /-- `PackageSpecification.__hash__`: `hash(complete_name)`, and when `source_type` is truthy
-`^ hash(source_type) ^ hash(source_url) ^ hash(source_subdirectory)` (references are left out on purpose) -/
+`^ hash(source_type) ^ hash(source_url or None) ^ hash(source_subdirectory or None)` (references are left out on
+purpose; `or None` since repo fix 34fbb11: `is_same_source_as` treats every falsy value alike) -/
 def specHash (s : Dep.Spec) : HIn :=
   if Dep.truthy s.sourceType then
-    .xor [.str s.completeName, optStrHash s.sourceType, optStrHash s.sourceUrl, optStrHash s.sourceSubdirectory]
+    .xor [.str s.completeName, optStrHash s.sourceType, optStrHash (orNone s.sourceUrl),
+      optStrHash (orNone s.sourceSubdirectory)]
   else .str s.completeName
 
 /-- `Dependency.__hash__` is the specification's (the constraint is mutable and left out) -/
@@ -159,10 +164,6 @@ structure Pkg where
 
 def Pkg.beq (a b : Pkg) : Bool := a.spec.beq b.spec && Version.eqv a.version b.version
 def pkgHash (p : Pkg) : HIn := .xor [specHash p.spec, verHash p.version]
-
-/-- falsy source fields are stored as `None` (what every constructor call made by poetry-core itself does;
-`#subdirectory=` with an empty value in a URL requirement is the exception, see the counterexample) -/
-def specNormal (s : Dep.Spec) : Bool := s.sourceUrl != some "" && s.sourceSubdirectory != some ""
 
 /-- no source reference of the three is a proper prefix of another, and none carries a resolved reference:
 the guard under which specification equality is transitive -/
